@@ -417,28 +417,38 @@ def expectedK (pk : PktK) : Option Out → Int
 def toK (p : Pkt) (wan : Bool) : PktK :=
   ⟨p.l4, p.ipver, p.pname, p.dscp, bpfBool wan, p.sport, p.dport, p.src, p.dst, p.mac⟩
 
+/-- the outbound byte, mark and must flag the builder stores for a tail -/
+def obOf : Tail Out → Nat × Nat × Bool
+  | .or => (OB_Or, 0, false)
+  | .and => (OB_And, 0, false)
+  | .mustRules => (OB_MustRules, 0, false)
+  | .final o => (o.outbound, o.mark, o.must)
+
+def mkK (e : Entry MCond Out) (c : KCond) : KEntry :=
+  ⟨c, e.neg, (obOf e.tail).1, (obOf e.tail).2.2, (obOf e.tail).2.1⟩
+
+/-- typed payload for a compiled condition; address sets get the LPM index `next` -/
+def kcondOf (next : Nat) : MCond → KCond × Option (List Prefix)
+  | .ipSet ps => (.ipSet next, some ps)
+  | .srcIpSet ps => (.srcIpSet next, some ps)
+  | .macSet ps => (.macSet next, some ps)
+  | .domainSet _ => (.domainSet, none)
+  | .port lo hi => (.port lo hi, none)
+  | .srcPort lo hi => (.srcPort lo hi, none)
+  | .ipVersion mask => (.ipVersion mask, none)
+  | .l4Proto mask => (.l4Proto mask, none)
+  | .processName bs => (.processName bs, none)
+  | .dscp v => (.dscp v, none)
+  | .fallback => (.fallback, none)
+
 /-- Allocate one LPM slot per address set (no sharing; sharing is C12's `share_only_if_equal`),
-numbering from `next`: the typed array the builder emits for C01's compiled program. -/
+numbering from `next`: the typed array and the LPM sets the builder emits for C01's compiled
+program. -/
 def assignFrom : Nat → List (Entry MCond Out) → List KEntry × List (List Prefix)
   | _, [] => ([], [])
   | next, e :: es =>
-    let ob : Nat × Nat × Bool := match e.tail with
-      | .or => (OB_Or, 0, false)
-      | .and => (OB_And, 0, false)
-      | .mustRules => (OB_MustRules, 0, false)
-      | .final o => (o.outbound, o.mark, o.must)
-    let mk (c : KCond) : KEntry := ⟨c, e.neg, ob.1, ob.2.2, ob.2.1⟩
-    match e.cond with
-    | .ipSet ps => let r := assignFrom (next + 1) es; (mk (.ipSet next) :: r.1, ps :: r.2)
-    | .srcIpSet ps => let r := assignFrom (next + 1) es; (mk (.srcIpSet next) :: r.1, ps :: r.2)
-    | .macSet ps => let r := assignFrom (next + 1) es; (mk (.macSet next) :: r.1, ps :: r.2)
-    | .domainSet _ => let r := assignFrom next es; (mk .domainSet :: r.1, r.2)
-    | .port lo hi => let r := assignFrom next es; (mk (.port lo hi) :: r.1, r.2)
-    | .srcPort lo hi => let r := assignFrom next es; (mk (.srcPort lo hi) :: r.1, r.2)
-    | .ipVersion mask => let r := assignFrom next es; (mk (.ipVersion mask) :: r.1, r.2)
-    | .l4Proto mask => let r := assignFrom next es; (mk (.l4Proto mask) :: r.1, r.2)
-    | .processName bs => let r := assignFrom next es; (mk (.processName bs) :: r.1, r.2)
-    | .dscp v => let r := assignFrom next es; (mk (.dscp v) :: r.1, r.2)
-    | .fallback => let r := assignFrom next es; (mk .fallback :: r.1, r.2)
+    match kcondOf next e.cond with
+    | (c, some ps) => let r := assignFrom (next + 1) es; (mkK e c :: r.1, ps :: r.2)
+    | (c, none) => let r := assignFrom next es; (mkK e c :: r.1, r.2)
 
 end DaeVerif.C02
